@@ -523,7 +523,12 @@ def synth_ff_text(rnd):
         elif kind == 'molmeta':
             out += ['[ molmeta ]', 'flag true', '[ bonds ]', 'A +A 1 0.40 700 {"version": 2}']
         elif kind == 'replace':
-            out += ['[ atoms ]', 'A {"replace": {"atype": "TX%d", "marker": %d}}' % (li, li), 'B {}', '[ edges ]', 'A B']
+            if rnd.random() < 0.35:
+                # a link that deletes an atom (replace atomname null): the atom and everything that mentions it disappear from THIS
+                # molecule - and from no other molecule the same processor object handles afterwards
+                out += ['[ atoms ]', 'C {"replace": {"atomname": null}}', 'B {}', '[ edges ]', 'B C']
+            else:
+                out += ['[ atoms ]', 'A {"replace": {"atype": "TX%d", "marker": %d}}' % (li, li), 'B {}', '[ edges ]', 'A B']
         elif kind == 'remove':
             if rnd.random() < 0.5:
                 # several removals of one type in one link: some of them usually find nothing at a given placement (the rest must
